@@ -223,6 +223,39 @@ pub fn c02_large(alg: Algorithm, inp: &LargeInput) -> Result<(bool, u64, u64), S
         let (o, _) = cap32_deadline(alg, old, new, k)?;
         chk(&o, &format!("capture_diff_deadline, clock expiring at probe {} of {}", k, pinf))?;
         tr += o.len() as u64;
+        // the combination: sub-ranges AND a deadline expiring at the same probe
+        let subk = subject(|| {
+            let _clock = arm_clock(k);
+            similar::capture_diff_deadline(alg, &fo[..], po..po + n, &fnw[..], pn..pn + m, some_deadline())
+        })
+        .map_err(|p| format!("capture_diff_deadline on sub-ranges, expiry at probe {}: panic: {}", k, p))?;
+        validate_ops(&subk, &fo, po..po + n, &fnw, pn..pn + m, false).map_err(|e| {
+            format!(
+                "capture_diff_deadline on sub-ranges old {:?} new {:?}, clock expiring at probe {} of {}: {}",
+                po..po + n,
+                pn..pn + m,
+                k,
+                pinf,
+                e
+            )
+        })?;
+        let shifted: Vec<DiffOp> = o
+            .iter()
+            .map(|op| match *op {
+                DiffOp::Equal { old_index, new_index, len } => DiffOp::Equal { old_index: old_index + po, new_index: new_index + pn, len },
+                DiffOp::Delete { old_index, old_len, new_index } => DiffOp::Delete { old_index: old_index + po, old_len, new_index: new_index + pn },
+                DiffOp::Insert { old_index, new_index, new_len } => DiffOp::Insert { old_index: old_index + po, new_index: new_index + pn, new_len },
+                DiffOp::Replace { old_index, old_len, new_index, new_len } => DiffOp::Replace { old_index: old_index + po, old_len, new_index: new_index + pn, new_len },
+            })
+            .collect();
+        if subk != shifted {
+            return Err(format!(
+                "capture_diff_deadline, clock expiring at probe {}: ops on sub-ranges old {:?} new {:?} differ from the full-range ops shifted by the range starts",
+                k,
+                po..po + n,
+                pn..pn + m
+            ));
+        }
     }
     Ok((st.n_equal > 0 && st.n_change > 0, tr, ops_fp(&ops)))
 }
